@@ -245,6 +245,36 @@ impl Check for C15 {
                 p
             }));
         }
+        // the terminal pauses (11 s, 61 s) inside a valid reply - after 1, 2, 3, 4 bytes and inside the
+        // body: the packet that comes out in the end is the one that was sent (or the exchange was given
+        // up with one error), never another kind of reply
+        {
+            let mut list: Vec<(SeqId, Cf, u32, u32)> = vec![];
+            for id in ALL_SEQS {
+                for cf in seqs::info(id).alphabet() {
+                    let f = seqs::reply_frame(id, &Reply { cf, marker: 3 });
+                    for at in [1u32, 2, 3, 4, (f.len() as u32).saturating_sub(1)] {
+                        if at > 0 && (at as usize) < f.len() {
+                            for gap in [11_000u32, 61_000] {
+                                list.push((id, cf, at, gap));
+                            }
+                        }
+                    }
+                }
+            }
+            let n = list.len() as u64;
+            fams.push(Family::new("terminal_pauses_inside_a_reply", n, true, move |i, rng| {
+                let (id, cf, at, gap) = list[i as usize];
+                let mut p = plan_for(id, cf, 1, false, rng);
+                p.replies[0] = seqs::reply_frame(id, &Reply { cf, marker: 3 });
+                p.mode = Mode::Paced;
+                p.sched = crate::conn::Sched::whole();
+                // 3 = the acknowledgement in front
+                p.paced_cuts = vec![3 + at];
+                p.paced_gaps_ms = vec![0, gap];
+                p
+            }));
+        }
         match tier {
             Tier::Thorough => {
                 fams.push(Family::new(
